@@ -308,7 +308,69 @@ def r11_7(ctx):
            "tendril fmt WTF8::fixup")
 
 
+def r11_9(ctx):
+    """make_owned: a tendril that is inline or SHARED becomes an owned copy of exactly its own bytes (as_byte_slice: offset and
+    length applied); only an already owned tendril is left alone.  A shared buffer is never taken over in place - the view's
+    offset into the buffer would be lost, and other views may still exist"""
+    key, pcs = nfq.cells(ctx, AREA, "Tendril<F,A>::make_owned")
+    bad = None
+    seen = set()
+    for pc in nfq.feasible(pcs):
+        acts = [(a, tuple(str(x) for x in args)) for a, args in pc["actions"]]
+        names = [a for a, _ in acts]
+        if "panic!" in names:
+            continue
+        copies = [args for a, args in acts if a in ("assign self", "assign *self") and args and re.fullmatch(r"(Tendril::|Self::)?owned_copy\(self\.as_byte_slice\(\)\)", args[0])]
+        others = [a for a in names if a not in ("self.as_byte_slice", "call owned_copy", "assign self", "assign *self", "call Self::owned_copy", "self.ptr.get", "self.header")]
+        if copies and not others and len(copies) == 1:
+            seen.add("copy")
+            continue
+        if not acts:
+            # untouched: must be the owned case - heap (tag above the inline range) and the shared bit clear
+            shared_clear = any((v is False and re.search(r"& 1\) matches 1$", g)) or (v is True and re.search(r"& 1\) matches 0$", g)) for g, v in pc["guards"].items())
+            if shared_clear:
+                seen.add("owned")
+                continue
+            bad = "a tendril that is not known to be owned is left as it is (%s)" % [g[:50] for g in pc["guards"]][:3]
+            continue
+        bad = "make_owned does %s: a buffer that is (or may be) shared is taken over in place instead of being copied - the view's offset into it is dropped and other views of it change under their owners" % (others or names)[:4]
+    ctx.ob("R11.9", "make_owned-copies-unless-owned", bad is None and seen == {"copy", "owned"}, bad or "inline / shared -> owned_copy(as_byte_slice()); owned -> untouched", "tendril Tendril::make_owned")
+
+
+def r11_11(ctx):
+    """WTF8::validate: a sequence is rejected exactly for an un-meaningful code point or a trail surrogate DIRECTLY after a lead
+    surrogate.  "Directly after" is carried from one iteration to the next: after every code point - ASCII included - the flag
+    is 'this code point was a lead surrogate', never the flag of an earlier iteration; and the index advances by the whole
+    code point"""
+    key, pcs = nfq.cells(ctx, AREA, "fmt::WTF8[Format]::validate")
+    bad = None
+    n = 0
+    for pc in nfq.feasible(pcs):
+        acts = [(a, tuple(str(x) for x in args)) for a, args in pc["actions"]]
+        ends = [args for a, args in acts if a == "loop-end"]
+        if not ends or ends[-1][0] not in ("end", "continue"):
+            continue
+        n += 1
+        carried = ends[-1][1:]
+        lead = [v for g, v in pc["guards"].items() if re.search(r"matches LeadSurrogate\(_\)", g)]
+        is_lead = bool(lead and lead[-1])
+        flags = [c for c in carried if c in ("true", "false") or re.fullmatch(r"φ\((true|false)\)", c)]
+        if len(flags) != 1 or flags[0] != ("true" if is_lead else "false"):
+            bad = "after a code point that is %s lead surrogate the flag carried into the next iteration is %s: a lead surrogate, then other characters, then a trail surrogate is rejected although the two are not adjacent (or an adjacent pair is accepted)" % (
+                "a" if is_lead else "not a", flags or carried)
+        if not any(re.search(r"\+ classify\(.*\)\.0\.bytes\.len\(\)\)$", c) for c in carried):
+            bad = bad or "the index advances by %s, not by the length of the code point just classified" % (carried[:1],)
+    ctx.ob("R11.11", "wtf8-validate-adjacency-flag", bad is None and n >= 3, bad or "%d iteration paths: flag := (this code point is a lead surrogate); index += its length" % n, "tendril fmt WTF8::validate")
+
+
 def run(ctx):
+    ctx.rule("R11.11", "WTF8::validate rejects a trail surrogate only directly after a lead surrogate: the adjacency flag is recomputed after every code point")
+    ctx.guard("R11.11", "wtf8-validate", lambda: r11_11(ctx))
+    ctx.rule("R11.9", "make_owned: inline or shared tendrils become an owned copy of their own bytes; nothing is taken over in place")
+    ctx.guard("R11.9", "make_owned", lambda: r11_9(ctx))
+    ctx.rule("R11.10", "an inline tendril is built only from at most MAX_INLINE_LEN bytes (shared with R12.10)")
+    from .C12 import r12_10
+    ctx.guard("R11.10", "inline-bound", lambda: r12_10(ctx, "R11.10"))
     ctx.rule("R11.8", "UTF8::validate_prefix / validate_suffix test the code point at the boundary with futf::classify; an inline tag overwrites the pointer only over an inline tendril (shared with R12.5)")
     ctx.guard("R11.8", "boundary", lambda: utf8_boundary_validators(ctx, "R11.8"))
     def inline_tag():
